@@ -31,6 +31,9 @@ func runC08(c *Ctx) {
 	const pkg = "kvstore"
 	info := p.Pkg(pkg).TypesInfo
 
+	// (0) the store batch the collector writes into applies, on Commit, the LAST operation recorded per
+	// key: a Set removes the key's pending Delete, a Delete its pending Set, and each is recorded
+	checkBatchDisjoint(r, p)
 	// (1)
 	checkGoWaitGroup(r, p, "wg/add-before-go", pkg, p.FuncDecl(pkg, "BatchedWriter", "startBatchWriter"), 1)
 	checkDoneOnAllExits(r, p, "wg/done-on-exit", pkg, p.FuncDecl(pkg, "BatchedWriter", "runBatchWriter"), "writeWg")
